@@ -36,10 +36,34 @@
 //     downsample(upsample), complex(real,imag): exact
 //
 // CORR: `C <tag> <args> | <outs>` lines recomputed by the Lean model (Model/MathFns.lean, Driver/H17.lean).
+//
+// Beyond the value sweeps (second round: defects that no value/size sweep with independently drawn operands can see):
+//   * LIFETIME / ALIASING (section `lifetime`): every array function of the property is called with its operand as a named
+//     object, a temporary, a moved copy, a (temporary built from a) slice of the object itself, a nested expression, with the
+//     result bound to a const&, iterated by range-for, assigned back to the operand (x = f(x), x = f(move(x)), x.slice = f(x));
+//     every TWO-array function (dot real/complex, complex(re, im), power(vec, vec), power(cvec, vec)) additionally with the
+//     SAME OBJECT for both parameters (directly, through a reference, object + slice of itself, overlapping slices of one
+//     object) and with the result assigned back to either operand.  All results must be BIT-identical to the call on equal
+//     but distinct deep copies; operands must be unmodified; results must own their storage; a rejected (throwing) call
+//     must leave later valid calls unchanged; the same object(s) passed again after an in-place change of the contents must give the
+//     result for the new contents (nothing may be remembered per object identity).  dot(x, x) / power(x, x) / complex(x, x) are also checked against the
+//     definition (long double) and sent through CORR.  The same section runs a second time under ASan/UBSan (C17_ONLY).
+//   * SCALE CLASSES / BOUNDARIES: ulp-neighbours of every half-integer up to 6.5, exact powers of two, neighbours of 2^31,
+//     2^32, 2^52, 2^53, 2^63; magnitudes up to DBL_MAX and down to the denormals for every function whose exact result is
+//     finite and that forms no square (abs, round, expj, tanh, log*, dB of a ratio, exp at the ends of its range, ...);
+//     complex arguments with ONE special component (0, -0, +-1, 1 +- ulp, denormal, DBL_MAX) and an arbitrary other one;
+//     exponents -0, in (0, eps), within an ulp of an integer; reduction arrays that are all negative, at absolute scales
+//     1e-305 ... DBL_MAX/(2n) (linear reductions), or with a single special element first / last / centre.
+//   * LARGE FRAMES (section `large`): every array overload and reduction on single calls of 2^16, 2^17 + 1, 3*49152, ...
+//     elements after smaller calls.
 #include "common.hpp"
 #include <complex>
 #include <cfloat>
+#include <cstring>
+#include <cstdlib>
 #include <algorithm>
+#include <functional>
+#include <type_traits>
 using namespace dsplib;
 typedef long double ld;
 typedef std::complex<ld> cld;
@@ -130,15 +154,62 @@ static const double SPR[] = {0.0, -0.0, 1.0, -1.0, 0.5, -0.5, 2.0, -2.0, 1.5, -1
                              4503599627370495.5, 4503599627370497.0, -4503599627370495.5, 0.9999999999999999, 1.0000000000000002, 7.0, -8.0, 8.0};
 static const double SPC[] = {0.0, -0.0, 1.0, -1.0, 2.0, -2.0, 0.5, -0.5, 1e-100, -1e-100, 1e100, -1e100};
 
+static const double INF = std::numeric_limits<double>::infinity();
+static void pm(std::vector<double>& v, double a) { v.push_back(a); v.push_back(-a); }
+// boundary points (all inside 1e-100..1e100): both ulp-neighbours of every half-integer, exact powers of two, the
+// integer-conversion and integrality thresholds 2^31, 2^32, 2^52, 2^53, 2^63
+static std::vector<double> boundary_reals() {
+    std::vector<double> v;
+    for (int k = 1; k <= 13; ++k) { const double h = 0.5 * k; pm(v, h); pm(v, std::nextafter(h, -INF)); pm(v, std::nextafter(h, INF)); }
+    for (int k : {1, 2, 3, 10, 31, 32, 52, 53, 63, 64, 100, 200, 300, 332}) { pm(v, std::ldexp(1.0, k)); pm(v, std::ldexp(1.0, -k)); }
+    for (int k : {31, 32, 51, 52}) { pm(v, std::ldexp(1.0, k) - 0.5); pm(v, std::ldexp(1.0, k) + 0.5); pm(v, std::ldexp(1.0, k) - 1); pm(v, std::ldexp(1.0, k) + 1); }
+    for (int k : {53, 63}) { pm(v, std::nextafter(std::ldexp(1.0, k), 0)); pm(v, std::nextafter(std::ldexp(1.0, k), INF)); }
+    return v;
+}
+// extreme magnitudes (outside 1e-100..1e100): used only by functions whose exact result is finite and that form no square
+static std::vector<double> extreme_reals() {
+    std::vector<double> v;
+    for (double a : {DBL_MAX, DBL_MAX / 2, std::nextafter(DBL_MAX, 0), std::ldexp(1.0, 1023), 1e308, 1e305, 1e300, 1e200, 1.3e154, 1e150, 1e120,
+                     1e-120, 1e-150, 1.5e-154, 1e-200, 1e-300, 1e-305, DBL_MIN, std::nextafter(DBL_MIN, 1), std::nextafter(DBL_MIN, 0), 1e-310, 1.5e-323, 5e-324})
+        pm(v, a);
+    return v;
+}
+static bool ok_conv(double x) { const double a = std::fabs(x); return a == 0 || (a >= 1e-300 && a <= 1e305); }    // deg2rad / rad2deg: no denormal / infinite intermediate
+static bool ok_sq(double x) { const double a = std::fabs(x); return a == 0 || (a >= 1.5e-154 && a <= 1.3e154); }   // x*x neither overflows nor underflows
+static bool ok_csq(cmplx_t z) {   // re^2 + im^2: no overflow, and the larger square is a normal number
+    const double h = std::max(std::fabs(z.re), std::fabs(z.im));
+    return h == 0 || (h >= 1.5e-154 && h <= 9e153);
+}
+
 static std::vector<double> real_pool(vh::Rng& r, int nrand) {
     std::vector<double> v(std::begin(SPR), std::end(SPR));
+    for (double b : boundary_reals()) v.push_back(b);
+    for (double b : extreme_reals()) v.push_back(b);
     for (int i = 0; i < nrand; ++i) v.push_back(rsg(r));
     for (int i = 0; i < nrand / 4; ++i) v.push_back(rsg(r, -3, 3));
     return v;
 }
+// one special component, the other arbitrary
+static void one_special(vh::Rng& r, std::vector<cmplx_t>& v, int per, double lo, double hi, bool with_extreme) {
+    std::vector<double> sp = {0.0, -0.0, 1.0, -1.0, std::nextafter(1.0, 0), std::nextafter(1.0, 2), std::nextafter(-1.0, 0), std::nextafter(-1.0, -2),
+                              0.5, -0.5, 2.0, -2.0, std::nextafter(0.5, 0), 3.141592653589793, -1.5707963267948966};
+    if (with_extreme) for (double e : {5e-324, -5e-324, DBL_MIN, -DBL_MIN, 1e-300, -1e-300}) sp.push_back(e);
+    for (double s : sp)
+        for (int i = 0; i < per; ++i) {
+            const double m = rsg(r, lo, hi);
+            v.push_back(cmplx_t{s, m}); v.push_back(cmplx_t{m, s});
+        }
+}
 static std::vector<cmplx_t> cmplx_pool(vh::Rng& r, int nrand) {
     std::vector<cmplx_t> v;
     for (double a : SPC) for (double b : SPC) v.push_back(cmplx_t{a, b});   // 0, -0, +-1, +-i, axes, signed zeros
+    one_special(r, v, 3, -100, 100, true);
+    one_special(r, v, 3, -2, 2, true);
+    // common extreme scale for both parts (squares stay finite and normal), mixed extreme scales, top / bottom of the double range
+    for (double s : {1e-150, 1e-120, 1e120, 1e150, 6e153})
+        for (int i = 0; i < 4; ++i) v.push_back(cmplx_t{(r.coin() ? s : -s) * (0.5 + 0.5 * r.unit()), (r.coin() ? s : -s) * (0.5 + 0.5 * r.unit())});
+    for (double a : {DBL_MAX, -DBL_MAX, 1e300, -1e300, 1e150, -1e-150, 1e-300, -1e-300, DBL_MIN, 5e-324, -5e-324})
+        for (double b : {DBL_MAX, -1e300, 1e-150, -1e-300, 5e-324, 1.0, -0.0}) { v.push_back(cmplx_t{a, b}); v.push_back(cmplx_t{b, a}); }
     for (int i = 0; i < nrand / 4; ++i) {                                    // axes with random magnitude
         const double m = rsg(r);
         v.push_back(cmplx_t{m, 0.0}); v.push_back(cmplx_t{m, -0.0}); v.push_back(cmplx_t{0.0, m}); v.push_back(cmplx_t{-0.0, m});
@@ -152,12 +223,36 @@ static std::vector<double> expo_pool(vh::Rng& r, int nrand) {
     std::vector<double> v;
     for (int k = -8; k <= 8; ++k) v.push_back(k);
     for (double f : {0.5, -0.5, 1.5, -1.5, 2.5, 1.0 / 3, -1.0 / 3, 7.75, -7.75, 0.1, 0.25, -2.25}) v.push_back(f);
+    // boundaries of the exponent range: -0, exponents in (0, eps) at the absolute scales 5e-324 ... 1e-8, within one ulp of an integer, inner neighbours of +-8
+    v.push_back(-0.0);
+    for (double f : {5e-324, DBL_MIN, 1e-300, 1e-100, 1e-17, 1e-8}) pm(v, f);
+    for (int k : {-2, -1, 1, 2, 3}) { v.push_back(std::nextafter(double(k), -INF)); v.push_back(std::nextafter(double(k), INF)); }
+    pm(v, std::nextafter(8.0, 0)); pm(v, std::nextafter(0.5, 0)); pm(v, std::nextafter(0.5, 1));
     for (int i = 0; i < nrand; ++i) v.push_back(-8 + 16 * r.unit());
     return v;
 }
 
-// array classes: 0 full log-uniform range, 1 band (<= 2 decades) random signs, 2 band one sign, 3 special points, 4 small integers (ties)
-static const int NCLS = 5;
+// array classes: 0 full log-uniform range, 1 band (<= 2 decades) random signs, 2 band one sign, 3 special points, 4 small integers (ties),
+//   5 band, all negative, 6 extreme absolute scale (1e-305 ... DBL_MAX/(2n); only the LINEAR reductions are in-domain), 7 band with ONE special
+//   element (huge, huge negative, +0, -0, tiny) planted first / last / centre
+static const int NCLS = 8;
+static const int CLS_EXTREME = 6;
+static double extreme_scale(vh::Rng& r, int n) {
+    const double tab[] = {1e-305, 1e-300, 1e-250, 1e250, 1e300 / n, DBL_MAX / (2.0 * n)};
+    return tab[r.range(0, 5)];
+}
+static cmplx_t toc(real_t v);
+static cmplx_t toc(cmplx_t v);
+template<class A, class F>
+static void plant(vh::Rng& r, A& x, F&& mk) {
+    const int n = x.size();
+    double hi = 0, lo = INF;
+    for (int i = 0; i < n; ++i) { const double a = std::max(std::fabs(toc(x[i]).re), std::fabs(toc(x[i]).im)); hi = std::max(hi, a); if (a > 0) lo = std::min(lo, a); }
+    if (!(hi > 0)) { hi = 1; lo = 1; }
+    const int pos[] = {0, n - 1, n / 2};
+    const double val[] = {1e3 * hi, -1e3 * hi, 0.0, -0.0, 1e-3 * lo};
+    x[pos[r.range(0, 2)]] = mk(val[r.range(0, 4)]);
+}
 static double elem(vh::Rng& r, int cls, double c, double w, double lim) {
     switch (cls) {
     case 0: return rsg(r, -lim, lim);
@@ -168,12 +263,33 @@ static double elem(vh::Rng& r, int cls, double c, double w, double lim) {
     }
 }
 static arr_real gen_real(vh::Rng& r, int n, int cls, double lim = 100) {
+    if (cls == 5) { arr_real x = gen_real(r, n, 2, lim); for (int i = 0; i < n; ++i) x[i] = -x[i]; return x; }
+    if (cls == CLS_EXTREME) {
+        const double s = extreme_scale(r, n);
+        arr_real x(n);
+        for (int i = 0; i < n; ++i) x[i] = (r.coin() ? s : -s) * (0.5 + 0.5 * r.unit());
+        return x;
+    }
+    if (cls == 7) { arr_real x = gen_real(r, n, 1, lim - 4); plant(r, x, [](double v) { return v; }); return x; }
     const double w = 2 * r.unit(), c = -(lim - 2) + 2 * (lim - 2) * r.unit();
     arr_real x(n);
     for (int i = 0; i < n; ++i) x[i] = elem(r, cls, c, w, lim);
     return x;
 }
 static arr_cmplx gen_cmplx(vh::Rng& r, int n, int cls, double lim = 100) {
+    if (cls == 5) { arr_cmplx x = gen_cmplx(r, n, 2, lim); for (int i = 0; i < n; ++i) x[i] = cmplx_t{-x[i].re, -x[i].im}; return x; }
+    if (cls == CLS_EXTREME) {
+        const double s = extreme_scale(r, n);
+        arr_cmplx x(n);
+        for (int i = 0; i < n; ++i) x[i] = cmplx_t{(r.coin() ? s : -s) * (0.5 + 0.5 * r.unit()), (r.coin() ? s : -s) * (0.5 + 0.5 * r.unit())};
+        return x;
+    }
+    if (cls == 7) {
+        arr_cmplx x = gen_cmplx(r, n, 1, lim - 4);
+        const int k = r.range(0, 2);
+        plant(r, x, [k](double v) { return k == 0 ? cmplx_t{v, 0.0} : k == 1 ? cmplx_t{-0.0, v} : cmplx_t{v, v}; });
+        return x;
+    }
     const double w = 2 * r.unit(), c = -(lim - 2) + 2 * (lim - 2) * r.unit();
     arr_cmplx x(n);
     for (int i = 0; i < n; ++i) {
@@ -314,6 +430,71 @@ static void corrS(const std::string& lhs, const std::string& rhs) {
     else out.stat("corr_lines_thinned_in_thorough");
 }
 
+// every real array overload (separate loops in math.cpp): X any finite values, Xc in-domain for deg2rad/rad2deg, Xs for abs2, P positive, E for exp, D for db2pow/db2mag
+static void real_arrays(const arr_real& X, const arr_real& Xc, const arr_real& Xs, const arr_real& P, const arr_real& E, const arr_real& D, int CH) {
+    vh::set_current("C17:crash:unary-real-array", std::string("{\"n\":") + I(X.size()) + "}");
+    { auto y = dsplib::abs(X); if (shape("abs[]", y, X.size())) for (int i = 0; i < X.size(); ++i) ck_abs("abs[]", X[i], y[i]); corr_chunks("v.abs", "", X, y, CH); }
+    { auto y = dsplib::round(X); if (shape("round[]", y, X.size())) for (int i = 0; i < X.size(); ++i) ck_round("round[]", X[i], y[i]); corr_chunks("v.round", "", X, y, CH); }
+    { auto y = dsplib::expj(X); if (shape("expj[]", y, X.size())) for (int i = 0; i < X.size(); ++i) ck_expj("expj[]", X[i], y[i]); corr_chunks("v.expj", "", X, y, CH); }
+    { auto y = dsplib::tanh(X); if (shape("tanh[]", y, X.size())) for (int i = 0; i < X.size(); ++i) ck_tanh("tanh[]", X[i], y[i]); corr_chunks("v.tanh", "", X, y, CH); }
+    { auto y = dsplib::deg2rad(Xc); if (shape("deg2rad[]", y, Xc.size())) for (int i = 0; i < Xc.size(); ++i) ck_deg2rad("deg2rad[]", Xc[i], y[i]); corr_chunks("v.deg2rad", "", Xc, y, CH); }
+    { auto y = dsplib::rad2deg(Xc); if (shape("rad2deg[]", y, Xc.size())) for (int i = 0; i < Xc.size(); ++i) ck_rad2deg("rad2deg[]", Xc[i], y[i]); corr_chunks("v.rad2deg", "", Xc, y, CH); }
+    { auto y = dsplib::abs2(Xs); if (shape("abs2(real)[]", y, Xs.size())) for (int i = 0; i < Xs.size(); ++i) vchk("abs2-real[]-value", 8, y[i], (ld)Xs[i] * Xs[i], (ld)Xs[i] * Xs[i], [&] { return W("abs2(real)[]", {Xs[i]}); }); corr_chunks("v.rabs2", "", Xs, y, CH); }
+    { auto y = dsplib::exp(E); if (shape("exp[]", y, E.size())) for (int i = 0; i < E.size(); ++i) ck_exp("exp[]", E[i], y[i]); corr_chunks("v.exp", "", E, y, CH); }
+    { auto y = dsplib::log(P); if (shape("log[]", y, P.size())) for (int i = 0; i < P.size(); ++i) ck_log("log[]", 0, P[i], y[i]); corr_chunks("v.log", "", P, y, CH); }
+    { auto y = dsplib::log2(P); if (shape("log2[]", y, P.size())) for (int i = 0; i < P.size(); ++i) ck_log("log2[]", 2, P[i], y[i]); corr_chunks("v.log2", "", P, y, CH); }
+    { auto y = dsplib::log10(P); if (shape("log10[]", y, P.size())) for (int i = 0; i < P.size(); ++i) ck_log("log10[]", 10, P[i], y[i]); corr_chunks("v.log10", "", P, y, CH); }
+    { auto y = dsplib::pow2db(P); if (shape("pow2db[]", y, P.size())) for (int i = 0; i < P.size(); ++i) ck_pow2db("pow2db[]", 10, P[i], y[i]); corr_chunks("v.pow2db", "", P, y, CH); }
+    { auto y = dsplib::mag2db(P); if (shape("mag2db[]", y, P.size())) for (int i = 0; i < P.size(); ++i) ck_pow2db("mag2db[]", 20, P[i], y[i]); corr_chunks("v.mag2db", "", P, y, CH); }
+    { auto y = dsplib::db2pow(D); if (shape("db2pow[]", y, D.size())) for (int i = 0; i < D.size(); ++i) ck_db2pow("db2pow[]", 10, D[i], y[i]); corr_chunks("v.db2pow", "", D, y, CH); }
+    { auto y = dsplib::db2mag(D); if (shape("db2mag[]", y, D.size())) for (int i = 0; i < D.size(); ++i) ck_db2pow("db2mag[]", 20, D[i], y[i]); corr_chunks("v.db2mag", "", D, y, CH); }
+    vh::clear_current();
+}
+
+// every complex array overload: Z any finite values, ZS with squares in range (abs, abs2), ZE in-domain for exp, ZT for tanh
+static void cmplx_arrays(const arr_cmplx& Z, const arr_cmplx& ZS, const arr_cmplx& ZE, const arr_cmplx& ZT, int CH) {
+    vh::set_current("C17:crash:unary-cmplx-array", std::string("{\"n\":") + I(Z.size()) + "}");
+    { auto y = dsplib::abs(ZS); if (shape("abs(cmplx)[]", y, ZS.size())) for (int i = 0; i < ZS.size(); ++i) ck_cabs("abs(cmplx)[]", ZS[i], y[i]); corr_chunks("v.cabs", "", ZS, y, CH); }
+    { auto y = dsplib::abs2(ZS); if (shape("abs2[]", y, ZS.size())) for (int i = 0; i < ZS.size(); ++i) ck_abs2("abs2[]", ZS[i], y[i]); corr_chunks("v.abs2", "", ZS, y, CH); }
+    { auto y = dsplib::angle(Z); if (shape("angle[]", y, Z.size())) for (int i = 0; i < Z.size(); ++i) ck_angle("angle[]", Z[i], y[i]); corr_chunks("v.angle", "", Z, y, CH); }
+    { auto y = dsplib::round(Z); if (shape("round(cmplx)[]", y, Z.size())) for (int i = 0; i < Z.size(); ++i) { ck_round("round(cmplx)[]", Z[i].re, y[i].re); ck_round("round(cmplx)[]", Z[i].im, y[i].im); } corr_chunks("v.cround", "", Z, y, CH); }
+    { auto y = dsplib::conj(Z); if (shape("conj[]", y, Z.size())) for (int i = 0; i < Z.size(); ++i) xchk("conj[]-value", same(y[i].re, Z[i].re) && same(y[i].im, -Z[i].im), [&] { return W("conj[]", {Z[i].re, Z[i].im}); }); corr_chunks("v.conj", "", Z, y, CH); }
+    {
+        auto re = dsplib::real(Z), im = dsplib::imag(Z);
+        if (shape("real[]", re, Z.size()) && shape("imag[]", im, Z.size())) {
+            for (int i = 0; i < Z.size(); ++i) xchk("real[]-value", same(re[i], Z[i].re) && same(im[i], Z[i].im), [&] { return W("real/imag[]", {Z[i].re, Z[i].im}, {i}); });
+            auto back = dsplib::complex(re, im);
+            bool ok = back.size() == Z.size();
+            for (int i = 0; ok && i < Z.size(); ++i) ok = same(back[i].re, Z[i].re) && same(back[i].im, Z[i].im);
+            xchk("roundtrip-complex-real-imag", ok, [&] { return std::string("{\"fn\":\"complex(real(z),imag(z))\",\"n\":") + I(Z.size()) + "}"; });
+            auto c1 = dsplib::complex(re);
+            ok = c1.size() == Z.size();
+            for (int i = 0; ok && i < Z.size(); ++i) ok = same(c1[i].re, Z[i].re) && c1[i].im == 0;
+            xchk("complex1-value", ok, [&] { return std::string("{\"fn\":\"complex(re)\"}"); });
+            corr_chunks("v.real", "", Z, re, CH); corr_chunks("v.imag", "", Z, im, CH);
+            for (int s = 0, c = 0; s + 8 <= Z.size() && c < CH; s += 8, ++c) {
+                arr_real a(re.slice(s, s + 8)), b(im.slice(s, s + 8));
+                out.corr("v.complex " + vh::hxs(a) + " " + vh::hxs(b), vh::hxs(dsplib::complex(a, b)));
+            }
+        }
+        {   // complex(re, im) on independent re / im arrays, element by element
+            const int m = std::min<int>(Z.size(), 512);
+            arr_real a(m), b(m);
+            for (int i = 0; i < m; ++i) { a[i] = Z[i].re; b[i] = Z[Z.size() - 1 - i].im; }
+            const arr_cmplx c = dsplib::complex(a, b);
+            if (shape("complex(re,im)", c, m))
+                for (int i = 0; i < m; ++i) xchk("complex-value", same(c[i].re, a[i]) && same(c[i].im, b[i]), [&] { return W("complex(re,im)", {a[i], b[i], c[i].re, c[i].im}, {i}); });
+        }
+        // size mismatch is an exception
+        bool thrown = false;
+        try { (void)dsplib::complex(arr_real(3), arr_real(4)); } catch (const std::exception&) { thrown = true; }
+        xchk("complex-size-mismatch-throws", thrown, [] { return std::string("{\"fn\":\"complex\",\"sizes\":[3,4]}"); });
+    }
+    { auto y = dsplib::exp(ZE); if (shape("exp(cmplx)[]", y, ZE.size())) for (int i = 0; i < ZE.size(); ++i) ck_cexp("exp(cmplx)[]", ZE[i], y[i]); corr_chunks("v.cexp", "", ZE, y, CH); }
+    { auto y = dsplib::tanh(ZT); if (shape("tanh(cmplx)[]", y, ZT.size())) for (int i = 0; i < ZT.size(); ++i) ck_ctanh("tanh(cmplx)[]", ZT[i], y[i]); }
+    vh::clear_current();
+}
+
 static void scalar_functions(vh::Rng& r) {
     const int NR = g_thorough ? 60000 : 4000;
     const int CH = g_thorough ? 60 : 12;
@@ -323,7 +504,7 @@ static void scalar_functions(vh::Rng& r) {
 
     // ---- abs / round / real-argument elementary functions
     {
-        std::vector<double> pos, ex, th, dbv;
+        std::vector<double> pos, ex, th, dbv, cv, sqv;
         for (double x : rp) {
             vh::set_current("C17:crash:unary-real", W("unary", {x}));
             const double a = dsplib::abs(x);
@@ -334,15 +515,24 @@ static void scalar_functions(vh::Rng& r) {
             ck_expj("expj", x, e); corrS("expj " + hx(x), hc(e));
             const double t = dsplib::tanh(arr_real{x})[0];
             ck_tanh("tanh", x, t); corrS("tanh " + hx(x), hx(t));
-            const double d2r = dsplib::deg2rad(x), r2d = dsplib::rad2deg(x);
-            ck_deg2rad("deg2rad", x, d2r); corrS("deg2rad " + hx(x), hx(d2r));
-            ck_rad2deg("rad2deg", x, r2d); corrS("rad2deg " + hx(x), hx(r2d));
-            // round trips
-            vchk("roundtrip-deg2rad-rad2deg", 8, dsplib::deg2rad(r2d), x, std::fabs(x), [&] { return W("deg2rad(rad2deg)", {x}); });
-            vchk("roundtrip-rad2deg-deg2rad", 8, dsplib::rad2deg(d2r), x, std::fabs(x), [&] { return W("rad2deg(deg2rad)", {x}); });
-            const double sq = dsplib::abs2(x);
-            vchk("abs2-real-value", 8, sq, (ld)x * x, (ld)x * x, [&] { return W("abs2(real)", {x}); });
-            corrS("rabs2 " + hx(x), hx(sq));
+            if (!inrange(x)) out.stat("real_points_outside_1e-290_1e290");
+            if (ok_conv(x)) {
+                const double d2r = dsplib::deg2rad(x), r2d = dsplib::rad2deg(x);
+                ck_deg2rad("deg2rad", x, d2r); corrS("deg2rad " + hx(x), hx(d2r));
+                ck_rad2deg("rad2deg", x, r2d); corrS("rad2deg " + hx(x), hx(r2d));
+                // round trips
+                if (inrange(x)) {
+                    vchk("roundtrip-deg2rad-rad2deg", 8, dsplib::deg2rad(r2d), x, std::fabs(x), [&] { return W("deg2rad(rad2deg)", {x}); });
+                    vchk("roundtrip-rad2deg-deg2rad", 8, dsplib::rad2deg(d2r), x, std::fabs(x), [&] { return W("rad2deg(deg2rad)", {x}); });
+                }
+                cv.push_back(x);
+            } else out.stat("skipped_degrad_denormal_or_overflowing_intermediate");
+            if (ok_sq(x)) {
+                const double sq = dsplib::abs2(x);
+                vchk("abs2-real-value", 8, sq, (ld)x * x, (ld)x * x, [&] { return W("abs2(real)", {x}); });
+                corrS("rabs2 " + hx(x), hx(sq));
+                sqv.push_back(x);
+            } else out.stat("skipped_abs2_square_overflows_or_underflows");
             if (dom_exp(x)) {
                 const double y = dsplib::exp(x);
                 ck_exp("exp", x, y); corrS("exp " + hx(x), hx(y)); ex.push_back(x);
@@ -354,8 +544,10 @@ static void scalar_functions(vh::Rng& r) {
                 const double pd = dsplib::pow2db(x), md = dsplib::mag2db(x);
                 ck_pow2db("pow2db", 10, x, pd); ck_pow2db("mag2db", 20, x, md);
                 corrS("pow2db " + hx(x), hx(pd)); corrS("mag2db " + hx(x), hx(md));
-                vchk("roundtrip-db2pow-pow2db", 8 + 0.75 * std::fabs(pd), dsplib::db2pow(pd), x, x, [&] { return W("db2pow(pow2db)", {x}); });
-                vchk("roundtrip-db2mag-mag2db", 8 + 0.4 * std::fabs(md), dsplib::db2mag(md), x, x, [&] { return W("db2mag(mag2db)", {x}); });
+                if (inrange(x)) {
+                    vchk("roundtrip-db2pow-pow2db", 8 + 0.75 * std::fabs(pd), dsplib::db2pow(pd), x, x, [&] { return W("db2pow(pow2db)", {x}); });
+                    vchk("roundtrip-db2mag-mag2db", 8 + 0.4 * std::fabs(md), dsplib::db2mag(md), x, x, [&] { return W("db2mag(mag2db)", {x}); });
+                }
                 pos.push_back(x);
             }
             if (dom_db2(10, x)) {
@@ -369,36 +561,35 @@ static void scalar_functions(vh::Rng& r) {
             }
             vh::clear_current();
         }
+        // ends of the ranges in which the exact result is finite: exp up to log(DBL_MAX) and down to the denormals, 10^(v/10), 10^(v/20)
+        for (double x : {700.0, 709.0, 709.78271289338397, -708.0, -708.39641853226408, -740.0, -745.0, -745.13321910194111}) {
+            const double y = dsplib::exp(x), ya = dsplib::exp(arr_real{x, x})[1];
+            ck_exp("exp", x, y); ck_exp("exp[]", x, ya); corrS("exp " + hx(x), hx(y));
+        }
+        for (double v : {2950.0, 3000.0, 3080.0, -3000.0, -3070.0, -3230.0}) {
+            const double p = dsplib::db2pow(v), m = dsplib::db2mag(2 * v), pa = dsplib::db2pow(arr_real{v, v})[1], ma = dsplib::db2mag(arr_real{2 * v, 2 * v})[1];
+            ck_db2pow("db2pow", 10, v, p); ck_db2pow("db2mag", 20, 2 * v, m); ck_db2pow("db2pow[]", 10, v, pa); ck_db2pow("db2mag[]", 20, 2 * v, ma);
+            corrS("db2pow " + hx(v), hx(p)); corrS("db2mag " + hx(2 * v), hx(m));
+        }
         // array overloads (separate loops in math.cpp)
-        const arr_real X = AR(rp), P = AR(pos), E = AR(ex), D = AR(dbv);
-        vh::set_current("C17:crash:unary-real-array", "{}");
-        { auto y = dsplib::abs(X); if (shape("abs[]", y, X.size())) for (int i = 0; i < X.size(); ++i) ck_abs("abs[]", X[i], y[i]); corr_chunks("v.abs", "", X, y, CH); }
-        { auto y = dsplib::round(X); if (shape("round[]", y, X.size())) for (int i = 0; i < X.size(); ++i) ck_round("round[]", X[i], y[i]); corr_chunks("v.round", "", X, y, CH); }
-        { auto y = dsplib::expj(X); if (shape("expj[]", y, X.size())) for (int i = 0; i < X.size(); ++i) ck_expj("expj[]", X[i], y[i]); corr_chunks("v.expj", "", X, y, CH); }
-        { auto y = dsplib::tanh(X); if (shape("tanh[]", y, X.size())) for (int i = 0; i < X.size(); ++i) ck_tanh("tanh[]", X[i], y[i]); corr_chunks("v.tanh", "", X, y, CH); }
-        { auto y = dsplib::deg2rad(X); if (shape("deg2rad[]", y, X.size())) for (int i = 0; i < X.size(); ++i) ck_deg2rad("deg2rad[]", X[i], y[i]); corr_chunks("v.deg2rad", "", X, y, CH); }
-        { auto y = dsplib::rad2deg(X); if (shape("rad2deg[]", y, X.size())) for (int i = 0; i < X.size(); ++i) ck_rad2deg("rad2deg[]", X[i], y[i]); corr_chunks("v.rad2deg", "", X, y, CH); }
-        { auto y = dsplib::abs2(X); if (shape("abs2(real)[]", y, X.size())) for (int i = 0; i < X.size(); ++i) vchk("abs2-real[]-value", 8, y[i], (ld)X[i] * X[i], (ld)X[i] * X[i], [&] { return W("abs2(real)[]", {X[i]}); }); corr_chunks("v.rabs2", "", X, y, CH); }
-        { auto y = dsplib::exp(E); if (shape("exp[]", y, E.size())) for (int i = 0; i < E.size(); ++i) ck_exp("exp[]", E[i], y[i]); corr_chunks("v.exp", "", E, y, CH); }
-        { auto y = dsplib::log(P); if (shape("log[]", y, P.size())) for (int i = 0; i < P.size(); ++i) ck_log("log[]", 0, P[i], y[i]); corr_chunks("v.log", "", P, y, CH); }
-        { auto y = dsplib::log2(P); if (shape("log2[]", y, P.size())) for (int i = 0; i < P.size(); ++i) ck_log("log2[]", 2, P[i], y[i]); corr_chunks("v.log2", "", P, y, CH); }
-        { auto y = dsplib::log10(P); if (shape("log10[]", y, P.size())) for (int i = 0; i < P.size(); ++i) ck_log("log10[]", 10, P[i], y[i]); corr_chunks("v.log10", "", P, y, CH); }
-        { auto y = dsplib::pow2db(P); if (shape("pow2db[]", y, P.size())) for (int i = 0; i < P.size(); ++i) ck_pow2db("pow2db[]", 10, P[i], y[i]); corr_chunks("v.pow2db", "", P, y, CH); }
-        { auto y = dsplib::mag2db(P); if (shape("mag2db[]", y, P.size())) for (int i = 0; i < P.size(); ++i) ck_pow2db("mag2db[]", 20, P[i], y[i]); corr_chunks("v.mag2db", "", P, y, CH); }
-        { auto y = dsplib::db2pow(D); if (shape("db2pow[]", y, D.size())) for (int i = 0; i < D.size(); ++i) ck_db2pow("db2pow[]", 10, D[i], y[i]); corr_chunks("v.db2pow", "", D, y, CH); }
-        { auto y = dsplib::db2mag(D); if (shape("db2mag[]", y, D.size())) for (int i = 0; i < D.size(); ++i) ck_db2pow("db2mag[]", 20, D[i], y[i]); corr_chunks("v.db2mag", "", D, y, CH); }
-        vh::clear_current();
+        real_arrays(AR(rp), AR(cv), AR(sqv), AR(pos), AR(ex), AR(dbv), CH);
         out.stat("real_pool", (long long)rp.size());
     }
 
     // ---- complex-argument functions
     {
-        std::vector<cmplx_t> ce, ct;
+        std::vector<cmplx_t> ce, ct, csq;
         for (cmplx_t z : cp) {
             vh::set_current("C17:crash:unary-cmplx", W("unary-cmplx", {z.re, z.im}));
-            const double a = dsplib::abs(z), a2 = dsplib::abs2(z), g = dsplib::angle(z);
-            ck_cabs("abs(cmplx)", z, a); ck_abs2("abs2", z, a2); ck_angle("angle", z, g);
-            corrS("cabs " + hc(z), hx(a)); corrS("abs2 " + hc(z), hx(a2)); corrS("angle " + hc(z), hx(g));
+            const double g = dsplib::angle(z);
+            ck_angle("angle", z, g); corrS("angle " + hc(z), hx(g));
+            if (ok_csq(z)) {
+                const double a = dsplib::abs(z), a2 = dsplib::abs2(z);
+                ck_cabs("abs(cmplx)", z, a); ck_abs2("abs2", z, a2);
+                corrS("cabs " + hc(z), hx(a)); corrS("abs2 " + hc(z), hx(a2));
+                csq.push_back(z);
+            } else out.stat("skipped_cabs_square_overflows_or_underflows");
+            if ((z.re == 1 || z.re == -1 || z.im == 1 || z.im == -1) && std::fabs(z.re) != std::fabs(z.im)) out.stat("cmplx_one_unit_component_points");
             const cmplx_t q = dsplib::round(z);
             ck_round("round(cmplx)", z.re, q.re); ck_round("round(cmplx)", z.im, q.im);
             corrS("cround " + hc(z), hc(q));
@@ -420,53 +611,15 @@ static void scalar_functions(vh::Rng& r) {
             if (std::signbit(z.im) && z.im == 0) out.stat("cmplx_negzero_im");
             vh::clear_current();
         }
-        const arr_cmplx Z = AC(cp), ZE = AC(ce), ZT = AC(ct);
-        vh::set_current("C17:crash:unary-cmplx-array", "{}");
-        { auto y = dsplib::abs(Z); if (shape("abs(cmplx)[]", y, Z.size())) for (int i = 0; i < Z.size(); ++i) ck_cabs("abs(cmplx)[]", Z[i], y[i]); corr_chunks("v.cabs", "", Z, y, CH); }
-        { auto y = dsplib::abs2(Z); if (shape("abs2[]", y, Z.size())) for (int i = 0; i < Z.size(); ++i) ck_abs2("abs2[]", Z[i], y[i]); corr_chunks("v.abs2", "", Z, y, CH); }
-        { auto y = dsplib::angle(Z); if (shape("angle[]", y, Z.size())) for (int i = 0; i < Z.size(); ++i) ck_angle("angle[]", Z[i], y[i]); corr_chunks("v.angle", "", Z, y, CH); }
-        { auto y = dsplib::round(Z); if (shape("round(cmplx)[]", y, Z.size())) for (int i = 0; i < Z.size(); ++i) { ck_round("round(cmplx)[]", Z[i].re, y[i].re); ck_round("round(cmplx)[]", Z[i].im, y[i].im); } corr_chunks("v.cround", "", Z, y, CH); }
-        { auto y = dsplib::conj(Z); if (shape("conj[]", y, Z.size())) for (int i = 0; i < Z.size(); ++i) xchk("conj[]-value", same(y[i].re, Z[i].re) && same(y[i].im, -Z[i].im), [&] { return W("conj[]", {Z[i].re, Z[i].im}); }); corr_chunks("v.conj", "", Z, y, CH); }
-        {
-            auto re = dsplib::real(Z), im = dsplib::imag(Z);
-            if (shape("real[]", re, Z.size()) && shape("imag[]", im, Z.size())) {
-                for (int i = 0; i < Z.size(); ++i) xchk("real[]-value", same(re[i], Z[i].re) && same(im[i], Z[i].im), [&] { return W("real/imag[]", {Z[i].re, Z[i].im}, {i}); });
-                auto back = dsplib::complex(re, im);
-                bool ok = back.size() == Z.size();
-                for (int i = 0; ok && i < Z.size(); ++i) ok = same(back[i].re, Z[i].re) && same(back[i].im, Z[i].im);
-                xchk("roundtrip-complex-real-imag", ok, [&] { return std::string("{\"fn\":\"complex(real(z),imag(z))\",\"n\":") + I(Z.size()) + "}"; });
-                auto c1 = dsplib::complex(re);
-                ok = c1.size() == Z.size();
-                for (int i = 0; ok && i < Z.size(); ++i) ok = same(c1[i].re, Z[i].re) && c1[i].im == 0;
-                xchk("complex1-value", ok, [&] { return std::string("{\"fn\":\"complex(re)\"}"); });
-                corr_chunks("v.real", "", Z, re, CH); corr_chunks("v.imag", "", Z, im, CH);
-                for (int s = 0, c = 0; s + 8 <= Z.size() && c < CH; s += 8, ++c) {
-                    arr_real a(re.slice(s, s + 8)), b(im.slice(s, s + 8));
-                    out.corr("v.complex " + vh::hxs(a) + " " + vh::hxs(b), vh::hxs(dsplib::complex(a, b)));
-                }
-            }
-            {   // complex(re, im) on independent re / im arrays, element by element
-                const int m = std::min<int>(Z.size(), 512);
-                arr_real a(m), b(m);
-                for (int i = 0; i < m; ++i) { a[i] = Z[i].re; b[i] = Z[Z.size() - 1 - i].im; }
-                const arr_cmplx c = dsplib::complex(a, b);
-                if (shape("complex(re,im)", c, m))
-                    for (int i = 0; i < m; ++i) xchk("complex-value", same(c[i].re, a[i]) && same(c[i].im, b[i]), [&] { return W("complex(re,im)", {a[i], b[i], c[i].re, c[i].im}, {i}); });
-            }
-            // size mismatch is an exception
-            bool thrown = false;
-            try { (void)dsplib::complex(arr_real(3), arr_real(4)); } catch (const std::exception&) { thrown = true; }
-            xchk("complex-size-mismatch-throws", thrown, [] { return std::string("{\"fn\":\"complex\",\"sizes\":[3,4]}"); });
-        }
-        { auto y = dsplib::exp(ZE); if (shape("exp(cmplx)[]", y, ZE.size())) for (int i = 0; i < ZE.size(); ++i) ck_cexp("exp(cmplx)[]", ZE[i], y[i]); corr_chunks("v.cexp", "", ZE, y, CH); }
-        { auto y = dsplib::tanh(ZT); if (shape("tanh(cmplx)[]", y, ZT.size())) for (int i = 0; i < ZT.size(); ++i) ck_ctanh("tanh(cmplx)[]", ZT[i], y[i]); }
-        vh::clear_current();
+        cmplx_arrays(AC(cp), AC(csq), AC(ce), AC(ct), CH);
         out.stat("cmplx_pool", (long long)cp.size());
     }
 
     // ---- every power overload
     {
         std::vector<double> bases(std::begin(SPR), std::end(SPR));
+        for (double b : boundary_reals()) bases.push_back(b);
+        for (double b : extreme_reals()) bases.push_back(b);   // in-domain whenever the exact power lies in 1e-290..1e290 (roots, small exponents)
         const int NB = g_thorough ? 1200 : 100;
         for (int i = 0; i < NB; ++i) bases.push_back(rsg(r, -100, 100));
         for (int i = 0; i < NB; ++i) bases.push_back(rsg(r, -2, 2));
@@ -474,6 +627,8 @@ static void scalar_functions(vh::Rng& r) {
         for (double a : SPC) for (double b : SPC) cb.push_back(cmplx_t{a, b});
         for (int i = 0; i < NB; ++i) cb.push_back(cmplx_t{rsg(r), rsg(r)});
         for (int i = 0; i < NB; ++i) cb.push_back(cmplx_t{rsg(r, -2, 2), rsg(r, -2, 2)});
+        one_special(r, cb, g_thorough ? 6 : 2, -30, 30, false);   // one component 0, -0, +-1, 1 +- ulp, ... and an arbitrary other one
+        one_special(r, cb, g_thorough ? 6 : 2, -2, 2, false);
         for (int i = 0; i < NB / 4; ++i) { const double m = rsg(r, -30, 30); cb.push_back(cmplx_t{m, 0.0}); cb.push_back(cmplx_t{m, -0.0}); cb.push_back(cmplx_t{0.0, m}); cb.push_back(cmplx_t{-0.0, m}); }
         long long nshort = 0, ngen = 0;
         for (double x : bases) {
@@ -580,11 +735,13 @@ static void tchk(const std::string& key, double budget, T got, cld ref, ld scale
 }
 
 template<class T>
-static void reductions(const base_array<T>& x, const base_array<T>& y, int cls, bool corr, bool normok) {
+static void reductions(const base_array<T>& x, const base_array<T>& y, int cls, bool corr, bool normok, bool linear_only = false) {
+    // linear_only: the elements sit at an extreme absolute scale; only the reductions that form no square are in-domain
+    // (sum, mean, cumsum, dot with a unit-scale second operand, real norm p = 1, real min/max/argmin/argmax/peak2peak)
     const int n = x.size();
     const std::string P = Tr<T>::px(), ty = std::string("(") + Tr<T>::nm() + ")";
     const double B = 8 + 0.5 * n;   // a-priori bound of recursive summation, see the table
-    const std::string hxv = vh::hxs(x);
+    const std::string hxv = corr ? vh::hxs(x) : std::string();
     vh::set_current("C17:crash:reduction" + ty, WA("reduction", x, {}, cls));
     // sum, mean
     cld s = 0; ld sa = 0;
@@ -612,8 +769,21 @@ static void reductions(const base_array<T>& x, const base_array<T>& y, int cls, 
         tchk("dot" + ty + "-value", B + 2, g, d, da, [&] { return WA("dot", x, {}, cls); });
         if (corr) out.corr(P + "dot " + hxv + " " + vh::hxs(y), hv(g));
     }
+    // dot with the SAME OBJECT for both parameters: still the bilinear sum x_i*x_i (no conjugation), and bit-identical to the call with a distinct equal copy
+    if (!linear_only) {
+        cld d = 0; ld da = 0;
+        for (int i = 0; i < n; ++i) { d += Tr<T>::c(x[i]) * Tr<T>::c(x[i]); da += Tr<T>::mag(x[i]) * Tr<T>::mag(x[i]); }
+        const T g = dsplib::dot(x, x);
+        tchk("dot" + ty + "-same-object-value", B + 2, g, d, da, [&] { return WA("dot(x,x) [same object]", x, {}, cls); });
+        const base_array<T> xc(x);
+        const T g2 = dsplib::dot(x, xc), g3 = dsplib::dot(xc, x);
+        xchk("dot" + ty + "-same-object-vs-copy", std::memcmp(&g, &g2, sizeof g) == 0 && std::memcmp(&g, &g3, sizeof g) == 0,
+             [&] { return std::string("{\"case\":") + WA("dot(x,x) vs dot(x,copy of x)", x, {}, cls) + ",\"same_object\":\"" + hv(g) + "\",\"distinct_copy\":\"" + hv(g2) + "\"}"; });
+        if (corr) out.corr(P + "dot " + hxv + " " + hxv, hv(g));
+        out.stat("dot_same_object_calls");
+    }
     // rms (n), stddev (n-1)
-    {
+    if (!linear_only) {
         ld q = 0;
         for (int i = 0; i < n; ++i) q += Tr<T>::mag(x[i]) * Tr<T>::mag(x[i]);
         const ld ref = sqrtl(q / n);
@@ -633,8 +803,8 @@ static void reductions(const base_array<T>& x, const base_array<T>& y, int cls, 
         }
     }
     // norm p = 1..8 (default p = 2)
-    if (normok) {
-        for (int p = 1; p <= 8; ++p) {
+    if (normok && !(linear_only && is_complex_v<T>)) {   // complex norm p = 1 goes through |z| = sqrt(re^2 + im^2)
+        for (int p = 1; p <= (linear_only ? 1 : 8); ++p) {
             ld q = 0;
             for (int i = 0; i < n; ++i) q += powl(Tr<T>::mag(x[i]), (ld)p);
             const ld ref = powl(q, 1.0L / p);
@@ -646,7 +816,7 @@ static void reductions(const base_array<T>& x, const base_array<T>& y, int cls, 
         }
     }
     // min max argmin argmax peak2peak
-    {
+    if (!(linear_only && is_complex_v<T>)) {
         const T mx = dsplib::max(x), mn = dsplib::min(x), pp = dsplib::peak2peak(x);
         const int ax = dsplib::argmax(x), an = dsplib::argmin(x);
         if (corr) {
@@ -707,8 +877,16 @@ static void reduction_sweep(vh::Rng& r) {
         for (int cls = 0; cls < NCLS; ++cls) {
             const bool corr = (rep == 0 && n <= 20) || (n >= 500 && longc < 2 * NCLS && ++longc);
             // norm raises |x| to the 8th power: magnitudes limited to 1e+-30 for the arrays that go through norm
-            const bool normok = ((n + rep) % 2 == 0) || cls >= 3;
+            const bool normok = ((n + rep) % 2 == 0) || cls == 3 || cls == 4 || cls == CLS_EXTREME;
             const double lim = normok ? 30 : 100;
+            if (cls == CLS_EXTREME) {
+                // second operand of dot at unit scale (0.25..0.5): every product and partial sum stays finite and normal
+                arr_real yr(n); arr_cmplx yc(n);
+                for (int i = 0; i < n; ++i) { yr[i] = (r.coin() ? 0.25 : -0.25) * (1 + r.unit()); yc[i] = cmplx_t{(r.coin() ? 0.25 : -0.25) * (1 + r.unit()), (r.coin() ? 0.25 : -0.25) * (1 + r.unit())}; }
+                reductions<real_t>(gen_real(r, n, cls), yr, cls, corr, true, true);
+                reductions<cmplx_t>(gen_cmplx(r, n, cls), yc, cls, corr, true, true);
+                continue;
+            }
             reductions<real_t>(gen_real(r, n, cls, lim), gen_real(r, n, cls, lim), cls, corr, normok);
             reductions<cmplx_t>(gen_cmplx(r, n, cls, lim), gen_cmplx(r, n, cls, lim), cls, corr, normok);
         }
@@ -985,6 +1163,424 @@ static void shape_arange_linspace(vh::Rng& r) {
         }
 }
 
+// =============================================================================== lifetime / aliasing / value category
+// Every result must be BIT-identical to the result of the same call on equal but distinct deep copies of the operands.
+static bool beq(double a, double b) { return std::memcmp(&a, &b, sizeof a) == 0; }
+static bool beq(cmplx_t a, cmplx_t b) { return beq(a.re, b.re) && beq(a.im, b.im); }
+static bool beq(int a, int b) { return a == b; }
+template<class U> static bool beq(const base_array<U>& a, const base_array<U>& b) {
+    if (a.size() != b.size()) return false;
+    for (int i = 0; i < a.size(); ++i) if (!beq(a[i], b[i])) return false;
+    return true;
+}
+template<class R> struct is_arr : std::false_type {};
+template<class U> struct is_arr<base_array<U>> : std::true_type {};
+static std::string rj(double v) { return "{\"hex\":\"" + hx(v) + "\",\"value\":" + vh::jnum(v) + "}"; }
+static std::string rj(cmplx_t v) { return "{\"hex\":[\"" + hx(v.re) + "\",\"" + hx(v.im) + "\"],\"value\":[" + vh::jnum(v.re) + "," + vh::jnum(v.im) + "]}"; }
+static std::string rj(int v) { return I(v); }
+template<class U> static std::string rj(const base_array<U>& a) {
+    std::string s = "{\"size\":" + I(a.size()) + ",\"head\":[";
+    for (int i = 0; i < a.size() && i < 6; ++i) s += (i ? "," : "") + rj(a[i]);
+    return s + "]}";
+}
+template<class R> static std::string diffj(const R& got, const R& exp) { return "\"got\":" + rj(got) + ",\"expected\":" + rj(exp); }
+template<class U> static std::string diffj(const base_array<U>& got, const base_array<U>& exp) {
+    int k = -1;
+    for (int i = 0; i < got.size() && i < exp.size(); ++i) if (!beq(got[i], exp[i])) { k = i; break; }
+    std::string s = "\"got\":" + rj(got) + ",\"expected\":" + rj(exp) + ",\"first_difference_at\":" + I(k);
+    if (k >= 0) s += ",\"got_there\":" + rj(got[k]) + ",\"expected_there\":" + rj(exp[k]);
+    return s;
+}
+template<class A, class R>
+static std::string LW(const char* fn, const char* scen, const A& x, int cls, const R& got, const R& exp) {
+    return std::string("{\"scenario\":\"") + scen + "\",\"reference\":\"same call on equal but distinct deep copies\",\"operand\":" + WA(fn, x, {}, cls) + "," + diffj(got, exp) + "}";
+}
+static long long g_lt_calls = 0;
+
+#define FW std::forward<decltype(A)>(A)
+#define FWB std::forward<decltype(B)>(B)
+#define U1(expr) [&](auto&& A) { return (expr); }
+#define U2(expr) [&](auto&& A, auto&& B) { return (expr); }
+
+// one-array function `call(A)`: A is handed over in every value category
+template<class T, class F>
+static void lt_unary(const char* fn, const base_array<T>& x0, int cls, F&& call) {
+    typedef base_array<T> AT;
+    const int n = x0.size();
+    const std::string base = std::string("lifetime:") + fn + "(" + Tr<T>::nm() + "):";
+    const AT keep(x0);
+    AT x(x0);
+    const AT& cx = x;
+    typedef std::decay_t<decltype(call(keep))> R;
+    vh::set_current("C17:crash:" + base, WA(fn, x0, {}, cls));
+    const R ref = call(keep);
+    auto chk = [&](const char* scen, const R& got) {
+        ++g_lt_calls;
+        xchk(base + scen, beq(got, ref), [&] { return LW(fn, scen, x0, cls, got, ref); });
+    };
+    {
+        const R r1 = call(cx);
+        chk("named-operand", r1);
+        xchk(base + "operand-modified", beq(x, x0) && beq(keep, x0), [&] { return LW(fn, "operand after the call", x0, cls, beq(x, x0) ? keep : x, x0); });
+        if constexpr (is_arr<R>::value)
+            xchk(base + "result-shares-storage-with-operand", r1.size() == 0 || (const void*)r1.data() != (const void*)x.data(),
+                 [&] { return std::string("{\"operand\":") + WA(fn, x0, {}, cls) + "}"; });
+        chk("named-operand-second-call", call(x));
+    }
+    chk("temporary-operand", call(AT(x)));
+    { AT c(x); chk("moved-operand", call(std::move(c))); }
+    chk("slice-of-itself", call(AT(x.slice(0, n))));
+    chk("const-slice-of-itself", call(AT(cx.slice(0, n))));
+    chk("slice-of-temporary", call(AT(AT(x).slice(0, n))));
+    { const AT t(x + x); const R rn = call(t); ++g_lt_calls; xchk(base + "nested-expression-operand", beq(call(x + x), rn), [&] { return LW(fn, "f(x + x) vs t = x + x; f(t)", x0, cls, call(x + x), rn); }); }
+    { const R& bound = call(AT(x)); chk("result-bound-to-const-ref", bound); }
+    if constexpr (is_arr<R>::value) {
+        int i = 0;
+        bool ok = true;
+        for (const auto& v : call(AT(x))) { ok = ok && i < ref.size() && beq(v, ref[i]); ++i; }
+        ++g_lt_calls;
+        xchk(base + "range-for-over-temporary-result", ok && i == ref.size(), [&] { return LW(fn, "range-for over f(temporary)", x0, cls, call(AT(x)), ref); });
+    }
+    if constexpr (std::is_same_v<R, AT>) {
+        { AT a(x); a = call(a); chk("assigned-back-to-operand", a); }
+        { AT a(x); a = call(std::move(a)); chk("assigned-back-to-moved-operand", a); }
+        { AT a(x); a = call(AT(a.slice(0, n))); chk("assigned-back-from-slice-of-operand", a); }
+        if (ref.size() == n) { AT a(x); a.slice(0, n) = call(a); chk("assigned-into-slice-of-operand", a); }
+    }
+    {   // the same object again after its contents changed (a result remembered per object identity would be stale)
+        AT mk(x);
+        std::reverse(mk.begin(), mk.end());
+        mk[0] = mk[0] + mk[0];
+        const R want = call(mk);
+        AT m(x);
+        (void)call(m);
+        std::reverse(m.begin(), m.end());   // in place: same object, same storage, new contents; no other call in between
+        m[0] = m[0] + m[0];
+        const R got = call(m);
+        ++g_lt_calls;
+        xchk(base + "same-object-after-its-contents-changed", beq(got, want), [&] { return LW(fn, "f(m); modify m in place; f(m)", mk, cls, got, want); });
+    }
+    xchk(base + "operand-modified", beq(x, x0) && beq(keep, x0), [&] { return LW(fn, "operand after all calls", x0, cls, beq(x, x0) ? keep : x, x0); });
+    vh::clear_current();
+}
+
+// two-array function `call(A, B)`; MISMATCH: sizes must agree (a shorter second operand throws)
+template<bool MISMATCH, class TA, class TB, class F>
+static void lt_binary(const char* fn, const base_array<TA>& x0, const base_array<TB>& y0, int cls, F&& call) {
+    typedef base_array<TA> AT;
+    typedef base_array<TB> BT;
+    const int n = x0.size();
+    const std::string base = std::string("lifetime:") + fn + "(" + Tr<TA>::nm() + "):";
+    const AT kx(x0);
+    const BT ky(y0);
+    AT x(x0);
+    BT y(y0);
+    const AT& cx = x;
+    const BT& cy = y;
+    typedef std::decay_t<decltype(call(kx, ky))> R;
+    vh::set_current("C17:crash:" + base, WA(fn, x0, {}, cls));
+    const R ref = call(kx, ky);
+    auto chkr = [&](const char* scen, const R& got, const R& want) {
+        ++g_lt_calls;
+        xchk(base + scen, beq(got, want), [&] { return LW(fn, scen, x0, cls, got, want); });
+    };
+    auto chk = [&](const char* scen, const R& got) { chkr(scen, got, ref); };
+    {
+        const R r1 = call(cx, cy);
+        chk("named-operands", r1);
+        xchk(base + "operand-modified", beq(x, x0) && beq(kx, x0), [&] { return LW(fn, "first operand after the call", x0, cls, beq(x, x0) ? kx : x, x0); });
+        xchk(base + "second-operand-modified", beq(y, y0) && beq(ky, y0), [&] { return LW(fn, "second operand after the call", y0, cls, beq(y, y0) ? ky : y, y0); });
+        if constexpr (is_arr<R>::value)
+            xchk(base + "result-shares-storage-with-operand", r1.size() == 0 || ((const void*)r1.data() != (const void*)x.data() && (const void*)r1.data() != (const void*)y.data()),
+                 [&] { return std::string("{\"operand\":") + WA(fn, x0, {}, cls) + "}"; });
+    }
+    chk("temporary-first", call(AT(x), y));
+    chk("temporary-second", call(x, BT(y)));
+    chk("temporary-both", call(AT(x), BT(y)));
+    { AT c(x); BT d(y); chk("moved-operands", call(std::move(c), std::move(d))); }
+    chk("slice-first", call(AT(x.slice(0, n)), y));
+    chk("slice-second", call(x, BT(cy.slice(0, n))));
+    { const R& bound = call(AT(x), BT(y)); chk("result-bound-to-const-ref", bound); }
+    if constexpr (is_arr<R>::value) {
+        int i = 0;
+        bool ok = true;
+        for (const auto& v : call(AT(x), BT(y))) { ok = ok && i < ref.size() && beq(v, ref[i]); ++i; }
+        ++g_lt_calls;
+        xchk(base + "range-for-over-temporary-result", ok && i == ref.size(), [&] { return LW(fn, "range-for over f(temporaries)", x0, cls, call(AT(x), BT(y)), ref); });
+    }
+    if constexpr (std::is_same_v<R, AT>) {
+        { AT a(x); a = call(a, y); chk("assigned-back-to-first-operand", a); }
+        { AT a(x); a = call(std::move(a), y); chk("assigned-back-to-moved-first-operand", a); }
+        if (ref.size() == n) { AT a(x); a.slice(0, n) = call(a, y); chk("assigned-into-slice-of-first-operand", a); }
+    }
+    if constexpr (std::is_same_v<R, BT>) {
+        { BT b(y); b = call(x, b); chk("assigned-back-to-second-operand", b); }
+    }
+    if constexpr (std::is_same_v<TA, TB>) {
+        // ---- the SAME OBJECT for both parameters; reference: two equal but distinct deep copies
+        const AT k2(x0);
+        const R refs = call(kx, k2);
+        chkr("same-object-for-both-parameters", call(x, x), refs);
+        chkr("same-const-object-for-both-parameters", call(cx, cx), refs);
+        { const AT& alias = x; chkr("object-and-reference-to-it", call(alias, x), refs); }
+        chkr("object-and-slice-of-itself", call(x, AT(x.slice(0, n))), refs);
+        chkr("slice-of-itself-and-object", call(AT(cx.slice(0, n)), x), refs);
+        chkr("object-and-temporary-copy", call(x, AT(x)), refs);
+        chkr("temporary-copy-and-object", call(AT(x), x), refs);
+        if constexpr (std::is_same_v<R, AT>) {
+            { AT a(x); a = call(a, a); chkr("same-object-assigned-back", a, refs); }
+            if (refs.size() == n) { AT a(x); a.slice(0, n) = call(a, a); chkr("same-object-assigned-into-its-slice", a, refs); }
+        }
+        // overlapping slices of ONE object vs. distinct arrays with the same contents
+        if (n >= 3) {
+            const int m = n - n / 3;
+            const AT lo(kx.slice(0, m)), hi(kx.slice(n - m, n));
+            const R refo = call(lo, hi);
+            chkr("overlapping-slices-of-one-object", call(AT(x.slice(0, m)), AT(x.slice(n - m, n))), refo);
+            if constexpr (std::is_same_v<R, AT>)
+                if (refo.size() == m) { AT a(x); a.slice(0, m) = call(AT(a.slice(0, m)), AT(a.slice(n - m, n))); AT e(x); e.slice(0, m) = refo; chkr("overlapping-slices-result-into-operand", a, e); }
+        }
+    }
+    if constexpr (MISMATCH) {
+        // a rejected call in the history: every later valid call behaves as if it never happened
+        if (n >= 2) {
+            bool t1 = false, t2 = false;
+            try { (void)call(x, BT(cy.slice(0, n - 1))); } catch (const std::exception&) { t1 = true; }
+            try { (void)call(AT(cx.slice(1, n)), y); } catch (const std::exception&) { t2 = true; }
+            xchk(base + "size-mismatch-throws", t1 && t2, [&] { return std::string("{\"operand\":") + WA(fn, x0, {}, cls) + ",\"sizes\":[" + I(n) + "," + I(n - 1) + "]}"; });
+            chk("after-rejected-call", call(x, y));
+            if constexpr (std::is_same_v<TA, TB>) { const AT k2(x0); chkr("same-object-after-rejected-call", call(x, x), call(kx, k2)); }
+            out.stat("lifetime_rejected_calls", 2);
+        }
+    }
+    {   // the same two objects again after their contents changed in place (no other call in between)
+        AT mx(x); BT my(y);
+        std::reverse(mx.begin(), mx.end()); std::reverse(my.begin(), my.end());
+        mx[0] = mx[0] + mx[0];
+        const R want = call(mx, my);
+        AT a(x); BT b(y);
+        (void)call(a, b);
+        std::reverse(a.begin(), a.end()); std::reverse(b.begin(), b.end());
+        a[0] = a[0] + a[0];
+        chkr("same-objects-after-their-contents-changed", call(a, b), want);
+    }
+    xchk(base + "operand-modified", beq(x, x0) && beq(kx, x0), [&] { return LW(fn, "first operand after all calls", x0, cls, beq(x, x0) ? kx : x, x0); });
+    xchk(base + "second-operand-modified", beq(y, y0) && beq(ky, y0), [&] { return LW(fn, "second operand after all calls", y0, cls, beq(y, y0) ? ky : y, y0); });
+    vh::clear_current();
+}
+
+template<class T> static base_array<T> genT(vh::Rng& r, int n, int cls, double lim);
+template<> arr_real genT<real_t>(vh::Rng& r, int n, int cls, double lim) { return gen_real(r, n, cls, lim); }
+template<> arr_cmplx genT<cmplx_t>(vh::Rng& r, int n, int cls, double lim) { return gen_cmplx(r, n, cls, lim); }
+
+// a valid call, a rejected call with the same operand, the valid call again
+template<class A, class V, class B>
+static void after_reject(const std::string& key, const A& x, V&& valid, B&& bad) {
+    const auto r1 = valid();
+    bool thrown = false;
+    try { bad(); } catch (const std::exception&) { thrown = true; }
+    const auto r2 = valid();
+    xchk("lifetime:" + key + ":rejected-call-throws", thrown, [&] { return WA(key.c_str(), x); });
+    xchk("lifetime:" + key + ":after-rejected-call", beq(r1, r2), [&] { return LW(key.c_str(), "valid call, rejected call, valid call again", x, -1, r2, r1); });
+    out.stat("lifetime_rejected_calls");
+}
+
+template<class T>
+static void lifetime_T(vh::Rng& r, int n, int cls, bool corr) {
+    typedef base_array<T> AT;
+    const AT x = genT<T>(r, n, cls, 30), y = genT<T>(r, n, cls == 7 ? 1 : cls, 30);
+    // ---- reductions
+    lt_unary("sum", x, cls, U1(dsplib::sum(FW)));
+    lt_unary("mean", x, cls, U1(dsplib::mean(FW)));
+    lt_unary("rms", x, cls, U1(dsplib::rms(FW)));
+    if (n >= 2) lt_unary("stddev", x, cls, U1(dsplib::stddev(FW)));
+    for (int p : {1, 2, 3}) lt_unary("norm", x, cls, U1(dsplib::norm(FW, p)));
+    lt_unary("max", x, cls, U1(dsplib::max(FW)));
+    lt_unary("min", x, cls, U1(dsplib::min(FW)));
+    lt_unary("argmax", x, cls, U1(dsplib::argmax(FW)));
+    lt_unary("argmin", x, cls, U1(dsplib::argmin(FW)));
+    lt_unary("peak2peak", x, cls, U1(dsplib::peak2peak(FW)));
+    lt_unary("cumsum", x, cls, U1(dsplib::cumsum(FW)));
+    lt_unary("cumsum-reverse", x, cls, U1(dsplib::cumsum(FW, Direction::Reverse)));
+    // ---- element-wise
+    lt_unary("abs", x, cls, U1(dsplib::abs(FW)));
+    lt_unary("round", x, cls, U1(dsplib::round(FW)));
+    lt_unary("exp", x, cls, U1(dsplib::exp(FW)));
+    lt_unary("tanh", x, cls, U1(dsplib::tanh(FW)));
+    lt_unary("conj", x, cls, U1(dsplib::conj(FW)));
+    lt_unary("abs2", x, cls, U1(dsplib::abs2(FW)));
+    lt_unary("power(vec,real)", x, cls, U1(dsplib::power(FW, 3.0)));
+    for (int k : {-1, 0, 1, 2, 3}) lt_unary("power(vec,int)", x, cls, U1(dsplib::power(FW, k)));
+    // ---- shape
+    lt_unary("flip", x, cls, U1(dsplib::flip(FW)));
+    for (int k : {0, 1, 2}) lt_unary("repelem", x, cls, U1(dsplib::repelem(FW, k)));
+    lt_unary("upsample-1", x, cls, U1(dsplib::upsample(FW, 1, 0)));
+    lt_unary("upsample", x, cls, U1(dsplib::upsample(FW, 3, 1)));
+    lt_unary("downsample-1", x, cls, U1(dsplib::downsample(FW, 1, 0)));
+    lt_unary("downsample", x, cls, U1(dsplib::downsample(FW, 2, 1)));
+    lt_unary("zeropad-same", x, cls, U1(dsplib::zeropad(AT(FW), n)));
+    lt_unary("zeropad", x, cls, U1(dsplib::zeropad(AT(FW), n + 3)));
+    after_reject(std::string("upsample(") + Tr<T>::nm() + ")", x, [&] { return dsplib::upsample(x, 3, 1); }, [&] { (void)dsplib::upsample(x, 0, 0); });
+    after_reject(std::string("downsample(") + Tr<T>::nm() + ")", x, [&] { return dsplib::downsample(x, 2, 1); }, [&] { (void)dsplib::downsample(x, 2, 2); });
+    after_reject(std::string("zeropad(") + Tr<T>::nm() + ")", x, [&] { return dsplib::zeropad(x, n + 3); }, [&] { (void)dsplib::zeropad(x, n - 1); });
+    // ---- two arrays of the same type
+    lt_binary<true>("dot", x, y, cls, U2(dsplib::dot(FW, FWB)));
+    if (corr) { out.corr(std::string(Tr<T>::px()) + "dot " + vh::hxs(x) + " " + vh::hxs(x), hv(dsplib::dot(x, x))); }
+    if constexpr (!is_complex_v<T>) {
+        AT xp(n);   // positive version for the logarithms
+        for (int i = 0; i < n; ++i) xp[i] = x[i] == 0 ? 1.0 : std::fabs(x[i]);
+        lt_unary("expj", x, cls, U1(dsplib::expj(FW)));
+        lt_unary("log", xp, cls, U1(dsplib::log(FW)));
+        lt_unary("log2", xp, cls, U1(dsplib::log2(FW)));
+        lt_unary("log10", xp, cls, U1(dsplib::log10(FW)));
+        lt_unary("pow2db", xp, cls, U1(dsplib::pow2db(FW)));
+        lt_unary("mag2db", xp, cls, U1(dsplib::mag2db(FW)));
+        lt_unary("db2pow", x, cls, U1(dsplib::db2pow(FW)));
+        lt_unary("db2mag", x, cls, U1(dsplib::db2mag(FW)));
+        lt_unary("deg2rad", x, cls, U1(dsplib::deg2rad(FW)));
+        lt_unary("rad2deg", x, cls, U1(dsplib::rad2deg(FW)));
+        lt_unary("complex(re)", x, cls, U1(dsplib::complex(FW)));
+        lt_unary("power(real,vec)", x, cls, U1(dsplib::power(2.0, FW)));
+        lt_unary("power(cmplx,vec)", x, cls, U1(dsplib::power(cmplx_t{0.5, -1.5}, FW)));
+        for (int d : {0, 2, -1, n, -n}) lt_unary("delayseq", x, cls, U1(dsplib::delayseq(AT(FW), d)));
+        lt_binary<true>("complex(re,im)", x, y, cls, U2(dsplib::complex(FW, FWB)));
+        if (corr) out.corr("v.complex " + vh::hxs(x) + " " + vh::hxs(x), vh::hxs(dsplib::complex(x, x)));
+        {   // complex(x, x): re = im = x
+            const arr_cmplx c = dsplib::complex(x, x);
+            bool ok = c.size() == n;
+            for (int i = 0; ok && i < n; ++i) ok = beq(c[i].re, x[i]) && beq(c[i].im, x[i]);
+            xchk("complex-same-object-value", ok, [&] { return WA("complex(x,x) [same object]", x, {}, cls); });
+        }
+        // vec .^ vec with in-domain operands: positive bases or negative integers, the SAME array as base and exponent included
+        AT b(n), e(n);
+        for (int i = 0; i < n; ++i) {
+            const int k = r.range(0, 9);
+            b[i] = k == 0 ? -double(r.range(1, 6)) : k == 1 ? double(r.range(0, 4)) : k == 2 ? 0.5 : rmag(r, -2, 1.4);
+            e[i] = b[i] < 0 ? double(r.range(-6, 6)) : b[i] == 0 ? double(r.range(0, 8)) : -8 + 16 * r.unit();
+        }
+        lt_binary<true>("power(vec,vec)", b, e, cls, U2(dsplib::power(FW, FWB)));
+        {
+            const AT pbb = dsplib::power(b, b), pbe = dsplib::power(b, e);
+            if (shape("power(vec,vec)", pbb, n) && shape("power(vec,vec)", pbe, n))
+                for (int i = 0; i < n; ++i) {
+                    if (dom_rpow(b[i], b[i])) ck_rpow("power(vec,vec)-same-object", b[i], b[i], pbb[i]);
+                    if (dom_rpow(b[i], e[i])) ck_rpow("power(vec,vec)", b[i], e[i], pbe[i]);
+                }
+            if (corr) { out.corr("v.rpow_vv " + vh::hxs(b) + " " + vh::hxs(b), vh::hxs(pbb)); out.corr("v.rpow_vv " + vh::hxs(b) + " " + vh::hxs(e), vh::hxs(pbe)); }
+        }
+    } else {
+        lt_unary("angle", x, cls, U1(dsplib::angle(FW)));
+        lt_unary("real", x, cls, U1(dsplib::real(FW)));
+        lt_unary("imag", x, cls, U1(dsplib::imag(FW)));
+        arr_real e(n);
+        for (int i = 0; i < n; ++i) e[i] = r.range(0, 3) == 0 ? double(r.range(0, 8)) : 8 * r.unit();
+        lt_binary<true>("power(cvec,vec)", x, e, cls, U2(dsplib::power(FW, FWB)));
+    }
+    out.stat(std::string("lifetime_arrays_") + Tr<T>::nm());
+}
+
+static void lifetime(vh::Rng& r) {
+    std::vector<int> lens = {1, 2, 3, 4, 7, 8, 9, 16, 33, 64, 257, 1000};
+    if (g_thorough) { for (int n = 5; n <= 48; ++n) lens.push_back(n); for (int n : {100, 255, 256, 511, 512, 513, 999, 4096, 65537}) lens.push_back(n); }
+    int rot = 0;
+    for (int n : lens) {
+        // quick: three content classes per length (rotating so that all appear), thorough: all of them (the extreme-scale class has its own sweep)
+        for (int cls = 0; cls < NCLS; ++cls) {
+            if (cls == CLS_EXTREME) continue;
+            if (!g_thorough && (cls + rot) % 3 != 0 && n > 4) continue;
+            const bool corr = n <= 16;
+            lifetime_T<real_t>(r, n, cls, corr);
+            lifetime_T<cmplx_t>(r, n, cls, corr);
+        }
+        ++rot;
+    }
+    // two-argument scalar templates with the same object twice
+    for (double a : {0.0, -0.0, 1.5, -2.0, 1e100, -1e-100}) {
+        const double c = a;
+        xchk("lifetime:max2:same-object", beq(dsplib::max(a, a), dsplib::max(a, c)) && beq(dsplib::min(a, a), dsplib::min(a, c)) && dsplib::max(a, a) == a && dsplib::min(a, a) == a,
+             [&] { return W("max/min(a,a) [same object]", {a}); });
+    }
+    out.stat("lifetime_calls_compared", g_lt_calls);
+}
+
+// =============================================================================== large single calls after smaller ones
+static void large_frames(vh::Rng& r) {
+    std::vector<int> sizes = {100, 65536, 131073};
+    if (g_thorough) sizes = {100, 65535, 65536, 65537, 98304, 131072, 131073, 147456, 196608, 262145};
+    for (int n : sizes) {
+        vh::set_current("C17:crash:large-frame", std::string("{\"n\":") + I(n) + "}");
+        // element-wise overloads: magnitudes 1e-30..1e30 (exp: +-700, dB: +-2900)
+        arr_real X(n), P(n), E(n), D(n);
+        arr_cmplx Z(n), ZE(n), ZT(n);
+        for (int i = 0; i < n; ++i) {
+            X[i] = rsg(r, -30, 30); P[i] = rmag(r, -30, 30); E[i] = 700 * r.sym(); D[i] = 2900 * r.sym();
+            Z[i] = cmplx_t{rsg(r, -30, 30), rsg(r, -30, 30)};
+            ZE[i] = cmplx_t{650 * r.sym(), rsg(r, -3, 3)};
+            ZT[i] = cmplx_t{rsg(r, -3, 1), rsg(r, -3, 1)};
+        }
+        real_arrays(X, X, X, P, E, D, n <= 100 ? 2 : 0);
+        {
+            std::vector<cmplx_t> zt;
+            for (int i = 0; i < n; ++i) if (dom_ctanh(ZT[i])) zt.push_back(ZT[i]);
+            while (int(zt.size()) < n) zt.push_back(cmplx_t{0.25, -0.5});
+            cmplx_arrays(Z, Z, ZE, AC(zt), n <= 100 ? 2 : 0);
+        }
+        // power overloads on n elements: positive bases 1e-8..1e8, exponents in [-8, 8]
+        {
+            arr_real b(n), e(n);
+            for (int i = 0; i < n; ++i) { b[i] = rmag(r, -8, 8); e[i] = -8 + 16 * r.unit(); }
+            const arr_real p1 = dsplib::power(b, e), p2 = dsplib::power(b, 2.5), p3 = dsplib::power(b, 3), p4 = dsplib::power(b, 2), p5 = dsplib::power(1.5, e);
+            const arr_cmplx q1 = dsplib::power(Z, 2), q2 = dsplib::power(Z, 3), q3 = dsplib::power(Z, 0.5), q4 = dsplib::power(Z, e);
+            if (shape("power(vec,vec)", p1, n) && shape("power(vec,real)", p2, n) && shape("power(vec,int)", p3, n) && shape("power(vec,int)", p4, n) && shape("power(real,vec)", p5, n) &&
+                shape("power(cvec,int)", q1, n) && shape("power(cvec,int)", q2, n) && shape("power(cvec,real)", q3, n) && shape("power(cvec,vec)", q4, n))
+                for (int i = 0; i < n; ++i) {
+                    ck_rpow("power(vec,vec)", b[i], e[i], p1[i]); ck_rpow("power(vec,real)", b[i], 2.5, p2[i]); ck_rpow("power(vec,int)", b[i], 3, p3[i]);
+                    ck_rpow("power(vec,int)", b[i], 2, p4[i]); ck_rpow("power(real,vec)", 1.5, e[i], p5[i]);
+                    ck_cpowi("power(cvec,int)", Z[i], 2, q1[i]); ck_cpowi("power(cvec,int)", Z[i], 3, q2[i]); ck_cpow("power(cvec,real)", Z[i], 0.5, q3[i]);
+                    if (dom_cpow(Z[i], e[i])) ck_cpow("power(cvec,vec)", Z[i], e[i], q4[i]);
+                }
+        }
+        vh::clear_current();
+        // reductions (every one of them, incl. cumsum in both directions, norm p = 1..8, dot with the same object)
+        for (int cls : {1, 2}) {
+            reductions<real_t>(gen_real(r, n, cls, 30), gen_real(r, n, cls, 30), cls, false, true);
+            reductions<cmplx_t>(gen_cmplx(r, n, cls, 30), gen_cmplx(r, n, cls, 30), cls, false, true);
+        }
+        reductions<real_t>(gen_real(r, n, 7, 30), gen_real(r, n, 1, 30), 7, false, false);
+        reductions<cmplx_t>(gen_cmplx(r, n, 7, 30), gen_cmplx(r, n, 1, 30), 7, false, false);
+        // shape functions
+        vh::set_current("C17:crash:large-frame-shape", std::string("{\"n\":") + I(n) + "}");
+        {
+            const auto jsn = [&] { return std::string("{\"fn\":\"shape functions on a large frame\",\"n\":") + I(n) + ",\"seed\":" + I((long long)g_seed) + "}"; };
+            const arr_real fl = dsplib::flip(X), rp = dsplib::repelem(X, 2), zp = dsplib::zeropad(X, n + 5), up = dsplib::upsample(X, 3, 1), dn = dsplib::downsample(X, 3, 1),
+                           d1 = dsplib::delayseq(X, 7), d2 = dsplib::delayseq(X, -7);
+            const arr_cmplx cfl = dsplib::flip(Z), cup = dsplib::upsample(Z, 2, 1), cdn = dsplib::downsample(Z, 2, 1), crp = dsplib::repelem(Z, 3);
+            bool ok = fl.size() == n && rp.size() == 2 * n && zp.size() == n + 5 && up.size() == 3 * n && dn.size() == (n - 1 - 1) / 3 + 1 && d1.size() == n && d2.size() == n &&
+                      cfl.size() == n && cup.size() == 2 * n && cdn.size() == (n - 1 - 1) / 2 + 1 && crp.size() == 3 * n;
+            xchk("large-frame-shape", ok, jsn);
+            if (ok) {
+                bool v = true;
+                for (int i = 0; i < n && v; ++i) {
+                    v = beq(fl[i], X[n - 1 - i]) && beq(rp[2 * i], X[i]) && beq(rp[2 * i + 1], X[i]) && beq(zp[i], X[i]) && beq(up[3 * i + 1], X[i]) && up[3 * i] == 0 && up[3 * i + 2] == 0 &&
+                        (i < 7 ? d1[i] == 0 : beq(d1[i], X[i - 7])) && (i + 7 < n ? beq(d2[i], X[i + 7]) : d2[i] == 0) && (3 * i + 1 >= n || beq(dn[i], X[3 * i + 1])) &&
+                        beq(cfl[i], Z[n - 1 - i]) && beq(cup[2 * i + 1], Z[i]) && cup[2 * i].re == 0 && cup[2 * i].im == 0 && (2 * i + 1 >= n || beq(cdn[i], Z[2 * i + 1])) &&
+                        beq(crp[3 * i], Z[i]) && beq(crp[3 * i + 1], Z[i]) && beq(crp[3 * i + 2], Z[i]);
+                }
+                for (int i = n; i < n + 5; ++i) v = v && zp[i] == 0;
+                xchk("large-frame-shape-values", v, jsn);
+            }
+            // generators of the same length
+            const arr_real ar = dsplib::arange(0, n, 1), af = dsplib::arange(0.0, n * 0.25, 0.25), ls = dsplib::linspace(-1.0, 3.0, size_t(n));
+            bool g = ar.size() == n && af.size() == n && ls.size() == n;
+            for (int i = 0; g && i < n; ++i) g = ar[i] == i && af[i] == 0.25 * i && fabsl((ld)ls[i] - (-1.0L + (ld)i * (4.0L / (n - 1)))) <= 8 * EPS * 3;
+            xchk("large-frame-generators", g, jsn);
+        }
+        vh::clear_current();
+        out.stat("large_frames");
+        out.stat("large_frame_elements", n);
+    }
+}
+
 int main(int argc, char** argv) {
     vh::Args a(argc, argv);
     vh::install_guards();
@@ -996,8 +1592,14 @@ int main(int argc, char** argv) {
     const std::pair<const char*, std::function<void()>> sections[] = {
         {"scalar", [&] { scalar_functions(rng); }},       {"reductions", [&] { reduction_sweep(rng); }},
         {"shape-real", [&] { shape_T<real_t>(rng); }},    {"shape-cmplx", [&] { shape_T<cmplx_t>(rng); }},
-        {"delayseq", [&] { shape_delayseq(rng); }},       {"arange-linspace", [&] { shape_arange_linspace(rng); }}};
+        {"delayseq", [&] { shape_delayseq(rng); }},       {"arange-linspace", [&] { shape_arange_linspace(rng); }},
+        {"lifetime", [&] { lifetime(rng); }},             {"large", [&] { large_frames(rng); }}};
+    // C17_ONLY=<comma separated section names>: run only these (the sanitizer configuration runs `lifetime,large`)
+    const char* only_env = std::getenv("C17_ONLY");
+    const std::string only = only_env ? std::string(",") + only_env + "," : std::string();
     for (auto& sec : sections) {
+        if (!only.empty() && only.find(std::string(",") + sec.first + ",") == std::string::npos) continue;
+        out.stat(std::string("section_run:") + sec.first);
         try { sec.second(); }
         catch (const std::exception& e) {
             out.fail(std::string("C17:unexpected-exception:") + sec.first, std::string("{\"in_flight\":\"") + vh::g_cur_key + "\",\"case\":" + (vh::g_cur_key[0] ? vh::g_cur_json : "{}") + "}");
